@@ -87,6 +87,18 @@ def file_variants_applied():
         return None
 
 
+def with_vals_after_state(h):
+    out = []
+    for i, ln in enumerate(h):
+        out.append(ln)
+        t = ln.split()
+        if len(t) == 2 and t[0] == 'state':
+            nxt = h[i + 1] if i + 1 < len(h) else ''
+            if nxt != 'vals ' + t[1]:
+                out.append('vals ' + t[1])
+    return out
+
+
 def repo_head():
     import subprocess
     try:
@@ -174,6 +186,11 @@ def main():
     # repaired defects stay in the corpus: their replays must agree with the model from now on
     corpus = corpus + [k['replay'] for k in load_known(pid) if k.get('status') == 'fixed' and k.get('replay')
                        and (tier == 'thorough' or k.get('tier') != 'thorough')]
+    # A `state X` line checks the REAL arrays (layout, Lean abs of the real arrays = real read path); it does not
+    # compare them with the MODEL's own content of X.  So that an unexpected change of X (a tie between two
+    # maps: seeded change C09e) cannot hide behind it, every `state X` is followed by `vals X` (model content =
+    # real content at every pixel) unless the history already asks for it.
+    hists = [with_vals_after_state(h) for h in hists]
     allh = corpus + hists
     diffs = []
     core.PAIR_CHECK = getattr(mod, 'pair_check', None)
